@@ -69,6 +69,20 @@ class Real(object):
                 pkt.height = (len(p[9]) + w - 1) // w
             else:
                 pkt.width, pkt.height, pkt.offset, pkt.pixels = 0, 0, None, None
+            self.n_map = getattr(self, 'n_map', 0) + 1
+            if self.n_map % 2 == 0:
+                # every other update arrives the way packets arrive: written to bytes, and read by one long-lived packet
+                # object that the application re-uses for every map packet
+                from minecraft.networking.connection import ConnectionContext
+                from minecraft.networking.packets import PacketBuffer
+                if getattr(self, 'map_reader', None) is None:
+                    self.map_reader = MP(context=ConnectionContext(protocol_version=757))
+                pkt.context = self.map_reader.context
+                buf = PacketBuffer()
+                pkt.write_fields(buf)
+                buf.reset_cursor()
+                self.map_reader.read(buf)
+                pkt = self.map_reader
             pkt.apply_to_map_set(self.maps)
         else:
             PP = P.PlayerPositionAndLookPacket
